@@ -230,7 +230,14 @@ func pinEdges(fn *ssa.Function, f *types.Var) map[[2]*ssa.BasicBlock]bool {
 			continue
 		}
 		bo, ok := ifi.Cond.(*ssa.BinOp)
-		if !ok || (bo.Op != token.EQL && bo.Op != token.NEQ) {
+		if !ok {
+			// `if x.flag`: the flag is known true on the true edge
+			if _, isLoad := ifi.Cond.(*ssa.UnOp); isLoad && isLoadOf(ifi.Cond) {
+				out[[2]*ssa.BasicBlock{b, b.Succs[0]}] = true
+			}
+			continue
+		}
+		if bo.Op != token.EQL && bo.Op != token.NEQ {
 			continue
 		}
 		if !isLoadOf(bo.X) && !isLoadOf(bo.Y) {
